@@ -102,9 +102,9 @@ CLAIMED = {
          "Spec/Board.v reply by reply on every run.",
          NOTE_COMMON + "The board model is an assumption (docstrings / public command reference); no firmware source is available offline.", "DESIGN.md section 5, C16"),
  "C17": ("Coq proof: discrete convexity argument over Z for all integers and all T + correspondence",
-         "Theorems C17_is_a_tick, C17_ends, C17_within_jerk, C17_limit, C17_oracle_is_peak: for all integers and every T>=1 the exact model of max_rate_t3 reports the absolute rate of some tick 1..T, "
+         "Theorems C17_is_a_tick, C17_ends, C17_within_jerk, C17_limit, C17_oracle_is_peak, C17_float_exact: for all integers and every T>=1 the exact model of max_rate_t3 reports the absolute rate of some tick 1..T, "
          "at least both end rates, and every tick's absolute rate is within |jerk| of it. Correspondence with ebb_calc.max_rate_t3 on vertex-boundary families.",
-         NOTE_COMMON + "rate_t3 and max_rate_t3 are re-translated from the source on every run (tools/py2v.py) and proved equal to the model. The float quotient t_mid classifying like the rational one is sampled, not proved; the O(1) peak used to judge outputs is proved to be the true peak (C17_oracle_is_peak).",
+         NOTE_COMMON + "rate_t3 and max_rate_t3 are re-translated from the source on every run (tools/py2v.py) and proved equal to the model. C17_float_exact: the float computation (binary64 quotient t_mid, its two comparisons, math.ceil, rate_t3's float expression) equals the exact model on the whole domain for every monotone rounding operator that fixes binary64 numbers (that IEEE round-to-nearest is one is trusted). The O(1) peak used to judge outputs is proved to be the true peak (C17_oracle_is_peak).",
          "DESIGN.md section 5, C17"),
  "C18": ("Coq proof (lra over Q) on a hand model; the four helpers re-translated from the source on every run (py2v) and proved equal to the model; exact-rational correspondence with /repo",
          "Theorems for all rationals: each helper returns the clamp of the value (value inside, nearer bound outside), flags exactly the outliers "
